@@ -21,7 +21,7 @@ EXPECTED_PROBES = ['fragmented', 'ctl_between_fragments', 'empty_fragment',
 
 
 def plan(tier):
-    return [('seeded', 4000 if tier == 'quick' else 150000),
+    return [('seeded', 10000 if tier == 'quick' else 150000),
             ('big', 120 if tier == 'quick' else 4000)]
 
 
